@@ -521,6 +521,42 @@ func runC05(c *ctx) {
 		c05Eval(c, c05Case{Class: "valid", Text: fmt.Sprintf("S2F3 W H->E <%s %s> .", k, text), Msg: m, Note: "long-plain-decimal/" + k.String()})
 	})
 
+	// several messages in one text with the SAME name, stream and function and different literals (a log of repeated
+	// events): each holds its own values, all of them come back, in the order written
+	c.parallel(c.pick(3000, 30000), func(i int, r *rng.R) {
+		g := gen.New(r, gen.Profile{MaxDepth: 2, Budget: 60, MaxKids: 3, MaxElems: 3})
+		heads := []*ref.Msg{g.Msg(nil, false), g.Msg(nil, false)}
+		var ms []*ref.Msg
+		var sb strings.Builder
+		for k := 0; k < 3+r.Intn(4); k++ {
+			h := *heads[r.Intn(2)]
+			h.Item = g.Tree()
+			h.Session = -1
+			ms = append(ms, &h)
+			sb.WriteString(ref.PrintMsg(&h))
+			sb.WriteString([]string{"\n", " ", "\n\n", " // next\n"}[r.Intn(4)])
+		}
+		text := sb.String()
+		msgs, errs, _, o := smlParse(text)
+		c.Note(rng.HashStr(text), true)
+		c.Class("repeated-headers-with-different-literals")
+		cs := c05Case{Class: "valid", Text: text, Note: "repeated-headers"}
+		if o.Panicked || len(errs) > 0 {
+			c.Violation("C05/valid-literal-rejected/repeated-headers", fmt.Sprintf("%s errors %q text %q", o, errs, clipS(text)), cs)
+			return
+		}
+		if len(msgs) != len(ms) {
+			c.Violation("C05/messages-lost-or-added/repeated-headers", fmt.Sprintf("%d messages written, %d returned; text %q", len(ms), len(msgs), clipS(text)), cs)
+			return
+		}
+		for k, m := range msgs {
+			if d := ref.MatchPrinted(m.String(), ref.MsgSegs(ms[k])); d != "" {
+				c.Violation("C05/stored-value-differs/repeated-headers", fmt.Sprintf("message %d of %d: %s; text %q", k, len(ms), d, clipS(text)), cs)
+				return
+			}
+		}
+	})
+
 	// unspecified forms: an error, or one of the plausible readings
 	type unspec struct {
 		kind  ref.Kind
@@ -615,7 +651,7 @@ func runC05(c *ctx) {
 		c.Class("backslash-sequences")
 		c05Eval(c, c05Case{Class: "valid", Text: text, Msg: m, Note: "backslash-not-an-escape"})
 	}
-	c.Required = []string{"class/valid", "class/invalid", "class/unspecified", "float-near-midpoint", "float-long-plain-decimal", "systematic-position", "boundary-in-every-base", "backslash-sequences"}
+	c.Required = []string{"class/valid", "class/invalid", "class/unspecified", "float-near-midpoint", "float-long-plain-decimal", "repeated-headers-with-different-literals", "systematic-position", "boundary-in-every-base", "backslash-sequences"}
 }
 
 func mathBits(v float64) uint64 { return ref.Float64Bits(v) }
